@@ -90,7 +90,7 @@ def unit_residual_rows(twin=False):
                 elif B.z3_prove(hy, tm.not_(same))[0] == "proved":
                     spec = tm.neg(F("f"))
                 else:
-                    r.add("CB.case_decided", FAILED, "z3", 0, repr(s.pc)[:200]); continue
+                    r.add("CB.case_decided", UNDECIDED, "z3", 0, repr(s.pc)[:200]); continue
             elif row == "MU":
                 spec = T("mass_water_aq_x") * T("mu_x") - (tm.Q("0.5") if not twin else tm.num(1)) * F("f")
             elif row == "MH" and combine:
@@ -100,7 +100,7 @@ def unit_residual_rows(twin=False):
                 if B.z3_prove(hy, sw)[0] == "proved":
                     spec = spec - tm.num(2) * (fld0(ex, s, "moles", "R", mo) - fld0(ex, s, "f", "R", mo))
                 elif B.z3_prove(hy, tm.not_(sw))[0] != "proved":
-                    r.add("MH.case_decided", FAILED, "z3", 0, repr(s.pc)[:200]); continue
+                    r.add("MH.case_decided", UNDECIDED, "z3", 0, repr(s.pc)[:200]); continue
             elif row == "MH2O" and combine:
                 spec = F("moles") - F("f")
             elif row == "MH":
@@ -110,7 +110,7 @@ def unit_residual_rows(twin=False):
                 if B.z3_prove(hy, sw)[0] == "proved":
                     spec = spec - tm.num(2) * (fld0(ex, s, "moles", "R", mo) - fld0(ex, s, "f", "R", mo))
                 elif B.z3_prove(hy, tm.not_(sw))[0] != "proved":
-                    r.add("MH.case_decided", FAILED, "z3", 0, repr(s.pc)[:200]); continue
+                    r.add("MH.case_decided", UNDECIDED, "z3", 0, repr(s.pc)[:200]); continue
                 wf = [v for ix, v in writes(s, ("f", "f", "R")) if ix == (xi,)]
                 if len(wf) != 1:
                     r.add("MH.f_includes_water_once", FAILED, "symex", 0, repr(wf)[:200])
